@@ -42,10 +42,10 @@ def write_models(dimplicit=None):
 
 
 def tlc_cases(cfg, module='MC_LoadRef', timeout=7200, extra_files=(),
-              dimplicit=None):
+              dimplicit=None, simulate=None):
     """Run (or reuse) a TLC exploration; returns (stats dict, cases)."""
     mh = write_models(dimplicit)
-    h = hashlib.sha1(mh.encode())
+    h = hashlib.sha1((mh + str(simulate) + str(SEED if simulate else '')).encode())
     for fn in ('YatimlLoad.tla', 'LoadRef.tla', module + '.tla', cfg) + \
             tuple(extra_files):
         with open(os.path.join(SPEC, fn), 'rb') as f:
@@ -62,7 +62,11 @@ def tlc_cases(cfg, module='MC_LoadRef', timeout=7200, extra_files=(),
             d['stats']['cached'] = True
             return d['stats'], d['cases']
         r = run_tlc(module, cfg, env={'YATIML_MODELS': MODELS_JSON},
-                    timeout=timeout, name=os.path.splitext(cfg)[0])
+                    timeout=timeout, name=os.path.splitext(cfg)[0],
+                    simulate=simulate, depth=400 if simulate else None,
+                    seed=SEED if simulate else None)
+        if simulate:
+            r.complete = True
         if r.error:
             raise MachineryError('TLC failed on %s: %s' % (cfg, r.error))
         stats = {'what': cfg, 'distinct_states': r.distinct,
@@ -586,7 +590,14 @@ def replay(V, pid, cases, sample_filter=None):
 def replay_one(pid, path):
     with open(path) as f:
         rec = json.load(f)
-    c = rec['case']['case']
+    c = rec['case'].get('case')
+    if rec['case'].get('pid') == 'C08F':
+        write_models()
+        r = rec['case']
+        bad, _ = _fuzz_chunk(([r['text']], [(r['model'], r['dt'])]))
+        for b in bad:
+            print(b)
+        return 1 if bad else 0
     if rec['case'].get('pid') == 'C10D':
         import dumpcheck
         write_models(dumpcheck.live_dimplicit())
@@ -621,6 +632,15 @@ PLAN = {
     'C18': [('MC_LoadRef_alias', None)],
 }
 
+SIM_FOR = {
+    'C01': ['MC_LoadRef_sim.cfg', 'MC_LoadRef_simalias.cfg'],
+    'C02': ['MC_LoadRef_sim.cfg'], 'C03': ['MC_LoadRef_sim.cfg'],
+    'C04': ['MC_LoadRef_sim.cfg'],
+    'C08': ['MC_LoadRef_sim.cfg', 'MC_LoadRef_simalias.cfg'],
+    'C10': ['MC_LoadRef_sim.cfg'], 'C13': ['MC_LoadRef_sim.cfg'],
+    'C17': ['MC_LoadRef_sim.cfg'], 'C18': ['MC_LoadRef_simalias.cfg'],
+}
+
 RULES = {
     'C01': 'every terminal state of the TLC exploration (all class models of '
            'the catalogue x all documents up to the per-model occurrence '
@@ -651,6 +671,20 @@ def run(pid, tier, replay=None, extra=None):
         if not cases:
             raise MachineryError('no cases for %s from %s' % (pid, cfg))
         replay_cases(V, pid, cases)
+    # random behaviours well beyond the exhaustive bound (TLC simulation mode:
+    # documents of up to 12 / 10 occurrences), same relations
+    if pid in SIM_FOR:
+        num = 4000 if tier == 'quick' else 60000
+        for cfg in SIM_FOR[pid]:
+            stats, cases = tlc_cases(cfg, simulate='num=%d' % num)
+            stats['what'] += ' (simulation, %d behaviours)' % len(cases)
+            V.tlc_runs.append(stats)
+            models = dict(PLAN[pid]).get(cfg.replace('sim', 'main')
+                                         .replace('mainalias', 'alias')[:-4])
+            if models is not None:
+                cases = [c for c in cases if c['model'] in models]
+            if cases:
+                replay_cases(V, pid, cases)
     if extra:
         extra(V, tier)
     V.exhaustive = True
@@ -883,3 +917,105 @@ def c17_strong(V, tier):
                 V.violation({'pid': 'C17S', 'kind': kind, 'case': c}, detail,
                             finding=fid)
     V.notes['strong_claim_documents'] = len(cases)
+
+
+# ------------------------------------------------ C08: text-level fuzzing ----
+TOKENS = ['- ', ': ', '? ', ', ', '[', ']', '{', '}', '&a ', '*a', '!A ',
+          '!!int ', '!!str ', '!!set ', '!!binary ', '!!omap ', '!!pairs ',
+          '!!python/object:os.system ', '!Unknown ', '| ', '> ', '"', "'",
+          '#', '\n', '\n  ', '\n    ', ' ', '<<', '=', '~', 'null', 'true',
+          '1', '1.5', '1e5', '.inf', '0x1F', '2020-01-02', 'x', 'a', 'b',
+          'y', 'abc', '---', '...', '%YAML 1.1', '\t', '﻿', '\x00',
+          'é', ' ', '\U0001F600', '\\', '- - ', 'x: 1', 'a: b',
+          '{x: 1}', '[1, 2]', '&a [*a]', '? [a]\n: b', 'x: 1\nx: 2',
+          '<<: {x: 1}', '<<: *a', '- !!python/name:os.system',
+          '!!timestamp 2001-13-45', '0o7', '1_000', '1:30', '!!float x']
+
+
+def fuzz_texts(rnd, n, seeds):
+    out = []
+    for _ in range(n):
+        r = rnd.random()
+        if r < 0.5:
+            k = rnd.randint(1, 12)
+            out.append(''.join(rnd.choice(TOKENS) for _ in range(k)))
+        elif r < 0.8 and seeds:
+            s = rnd.choice(seeds)
+            for _ in range(rnd.randint(1, 3)):
+                i = rnd.randint(0, len(s))
+                op = rnd.random()
+                if op < 0.4:
+                    s = s[:i] + rnd.choice(TOKENS) + s[i:]
+                elif op < 0.7:
+                    s = s[:i] + s[i + rnd.randint(1, 3):]
+                else:
+                    j = rnd.randint(0, len(s))
+                    s = s[:i] + s[j:j + 4] + s[i:]
+            out.append(s)
+        else:
+            k = rnd.randint(0, 10)
+            out.append(''.join(chr(rnd.choice(
+                [rnd.randint(0, 0x7f), rnd.randint(0x80, 0x2ff),
+                 rnd.randint(0x2000, 0x206f), rnd.randint(0x10000, 0x1ffff),
+                 0xfeff, 0x85, 0xd800, 10, 32, 58, 45]))
+                for _ in range(k)))
+    return out
+
+
+def _fuzz_chunk(args):
+    texts, combos = args
+    import yaml
+    ctx = loadreplay.ctx()
+    y = ctx['yatiml']
+    bad = []
+    n = 0
+    import sys
+    sys.setrecursionlimit(10000)
+    for t in texts:
+        # bounded nesting only (the property's domain)
+        if max((t.count(c) for c in '[{'), default=0) > 20:
+            continue
+        for mid, dt in combos:
+            n += 1
+            fn = loadreplay.load_fn(mid, dt)
+            try:
+                fn(t)
+            except (y.RecognitionError, yaml.YAMLError):
+                pass
+            except Exception as e:  # noqa
+                bad.append((t, mid, dt, type(e).__name__, str(e)[:200]))
+    return bad, n
+
+
+def c08_fuzz(V, tier):
+    """Text-level exploration beyond the specification's abstract documents:
+    token soup from YAML indicators, mutated valid documents, arbitrary
+    unicode - the only observable is the class of the escaping exception."""
+    import multiprocessing
+    rnd = random.Random(SEED + 8)
+    ctx = loadreplay.ctx()
+    _, cases = tlc_cases('MC_LoadRef_main.cfg' if tier == 'quick'
+                         else 'MC_LoadRef_main_t.cfg')
+    seeds = []
+    for c in rnd.sample(cases, min(400, len(cases))):
+        seeds.append(render.render(c['doc'], ctx['implicit'],
+                                   rnd.choice(['flow', 'block']))[0])
+    texts = fuzz_texts(rnd, 6000 if tier == 'quick' else 150000, seeds)
+    combos = []
+    for mid in ('scalars', 'collections', 'plain', 'extra', 'enum_str',
+                'hier', 'adversarial', 'parsed', 'raising', 'dashed_sav'):
+        dts = ctx['models'][mid]['doctypes']
+        combos += [(mid, dt) for dt in dts[:3]]
+    chunks = [(c, combos) for c in chunked(texts, NCPU * 2)]
+    with multiprocessing.get_context('fork').Pool(NCPU) as pool:
+        parts = pool.map(_fuzz_chunk, chunks)
+    total = 0
+    for bad, n in parts:
+        total += n
+        for t, mid, dt, cls, msg in bad:
+            V.violation({'pid': 'C08F', 'text': t, 'model': mid, 'dt': dt},
+                        'load(%r) as %s (model %s) raised %s: %s' % (
+                            t, json.dumps(dt), mid, cls, msg))
+    V.evaluations += total
+    V.notes['text_fuzz_loads'] = total
+    V.notes['text_fuzz_texts'] = len(texts)
